@@ -20,13 +20,13 @@ var names = []string{"", "f", "_Z1fv", "<unknown>", "a<b>", "(x)::y"}
 
 // Generator coordinates (see Run for the bounds).
 const (
-	nLayouts = 9
+	nLayouts = 10
 	nFlags   = 4
 	nPre     = 6
 	nSrc     = 5
 )
 
-var layoutNames = []string{"A", "A+B", "A+nofile+nomapping-loc", "nofile-main+B", "A+[vdso]@0", "url-file+B", "dangling+A+B", "no mappings", "A+A2 (same file)"}
+var layoutNames = []string{"A", "A+B", "A+nofile+nomapping-loc", "nofile-main+B", "A+[vdso]@0", "url-file+B", "dangling+A+B", "no mappings", "A+A2 (same file)", "fake mapping 0-0 with a file name"}
 var flagNames = []string{"none", "m0:F", "m0:file,m1:all", "m0:line,m1:F"}
 var preNames = []string{"unsymbolized", "ids 1,2,3", "ids 2,4,7", "ids 3,1,2", "ids 100,200,300", "ids 1,2,5"}
 var srcNames = []string{"no sources", "file->/debug/pprof, offset 0", "buildid->/pprof/heap, offset +0x100", "file->[local file, /x/y], offset -0x800", "file->/debug/pprof, offset -0x1800 (overflows)"}
@@ -177,6 +177,10 @@ func build(cs *Case, w *world) (*profile.Profile, plugin.MappingSources) {
 	case 7: // no mapping at all (the driver adds a fake one)
 		locs = append(locs, locSpec{0x1000, -1}, locSpec{0x1800, -1}, locSpec{0x1fff, -1})
 		lm = nil
+	case 9: // the fake mapping the driver adds to a profile without mappings (range 0-0), named by an executable override
+		maps = append(maps, mkMap(1, 0, 0, 0, "/bin/a", ""))
+		locsA(0)
+		lm = []int{0}
 	case 8: // two segments of the same binary
 		A()
 		maps = append(maps, mkMap(2, 0x2000, 0x3000, 0x1000, "/bin/a", "ba"))
